@@ -13,6 +13,7 @@ import (
 	"fmt"
 	"sort"
 	"strings"
+	"sync"
 	"sync/atomic"
 	"testing"
 	"time"
@@ -41,14 +42,33 @@ import (
 	"google.golang.org/protobuf/proto"
 )
 
-type vc02Gater struct{ blocked int32 }
+// blocked: refuses everything (partition). deny: refuses every connection with the listed peers, in both directions
+// (line topology: the two ends never get connected), as harness/crdt/c07_test.go does for its relay case.
+type vc02Gater struct {
+	blocked int32
+	mu      sync.Mutex
+	deny    map[peer.ID]bool
+}
 
-func (g *vc02Gater) open() bool                                         { return atomic.LoadInt32(&g.blocked) == 0 }
-func (g *vc02Gater) InterceptPeerDial(p peer.ID) bool                   { return g.open() }
-func (g *vc02Gater) InterceptAddrDial(peer.ID, ma.Multiaddr) bool       { return g.open() }
-func (g *vc02Gater) InterceptAccept(network.ConnMultiaddrs) bool        { return g.open() }
-func (g *vc02Gater) InterceptSecured(network.Direction, peer.ID, network.ConnMultiaddrs) bool {
-	return g.open()
+func (g *vc02Gater) open() bool { return atomic.LoadInt32(&g.blocked) == 0 }
+func (g *vc02Gater) ok(p peer.ID) bool {
+	g.mu.Lock()
+	defer g.mu.Unlock()
+	return !g.deny[p]
+}
+func (g *vc02Gater) setDeny(p peer.ID) {
+	g.mu.Lock()
+	if g.deny == nil {
+		g.deny = map[peer.ID]bool{}
+	}
+	g.deny[p] = true
+	g.mu.Unlock()
+}
+func (g *vc02Gater) InterceptPeerDial(p peer.ID) bool                 { return g.open() && g.ok(p) }
+func (g *vc02Gater) InterceptAddrDial(p peer.ID, _ ma.Multiaddr) bool { return g.open() && g.ok(p) }
+func (g *vc02Gater) InterceptAccept(network.ConnMultiaddrs) bool      { return g.open() }
+func (g *vc02Gater) InterceptSecured(_ network.Direction, p peer.ID, _ network.ConnMultiaddrs) bool {
+	return g.open() && g.ok(p)
 }
 func (g *vc02Gater) InterceptUpgraded(network.Conn) (bool, control.DisconnectReason) {
 	return g.open(), 0
@@ -91,16 +111,28 @@ type vC02NStep struct {
 type vC02NCase struct {
 	N         int         `json:"n"`         // peers that trust each other
 	Untrusted bool        `json:"untrusted"` // one more peer that nobody trusts (it trusts the others)
-	Steps     []vC02NStep `json:"steps"`
+	// Line: three peers A(0) -- B(1) -- C(2). A and C list each other (and nobody else) in trusted_peers and refuse every
+	// connection with each other; B trusts everybody and is trusted by nobody. Operations are issued at A and C only
+	// (step.R even: A, odd: C); whatever one of them publishes can reach the other only through B's forwarding.
+	Line  bool        `json:"line,omitempty"`
+	Steps []vC02NStep `json:"steps"`
 }
 
 type vC02NObs struct {
 	Deltas []vc02DeltaObs `json:"deltas"`
-	Finals [][][2]int     `json:"finals"` // per trusted peer
+	Finals [][][2]int     `json:"finals"` // per compared peer
+	Peers  []int          `json:"peers"`  // index of every compared peer
+	Trust  [][]int        `json:"trust"`  // its trusted_peers as indices; [-1] = trust all
+	Writers []int         `json:"writers"` // peers that issued an operation
 	Leak   []int          `json:"leak"`   // CIDs pinned only by the untrusted peer that appeared at a trusted peer
 	Heads  []int          `json:"nheads"`
+	NoSync bool           `json:"nosync,omitempty"` // the compared peers did not reach the same heads within the (long) timeout
 	Err    string         `json:"err,omitempty"`
 }
+
+const vc02SyncTimeout = 25 * time.Second // positive expectation; normally about one RebroadcastInterval (400 ms)
+
+var vc02NetSeq int64
 
 type vc02NetPeer struct {
 	p *vc02Peer
@@ -146,7 +178,10 @@ func vC02NRun(t *testing.T, c vC02NCase) (obs vC02NObs) {
 	if c.Untrusted {
 		total++
 	}
-	name := fmt.Sprintf("vc02net-%d", time.Now().UnixNano())
+	if c.Line {
+		c.N, c.Untrusted, total = 3, false, 3
+	}
+	name := fmt.Sprintf("vc02net-%d-%d", time.Now().UnixNano(), atomic.AddInt64(&vc02NetSeq, 1))
 	var hosts []host.Host
 	var psubs []*pubsub.PubSub
 	var dhts []*dual.DHT
@@ -156,13 +191,42 @@ func vC02NRun(t *testing.T, c vC02NCase) (obs vC02NObs) {
 		h, ps, d := vc02MakeHost(t, g)
 		hosts, psubs, dhts, gaters = append(hosts, h), append(psubs, ps), append(dhts, d), append(gaters, g)
 	}
-	var trusted []peer.ID
-	for i := 0; i < c.N; i++ {
-		trusted = append(trusted, hosts[i].ID())
+	// who trusts whom (indices), which links exist, which peers are compared
+	trustIdx := make([][]int, total) // nil + trustAll[i] = everybody
+	trustAll := make([]bool, total)
+	var edges [][2]int
+	var group []int
+	if c.Line {
+		trustIdx[0], trustIdx[2], trustAll[1] = []int{2}, []int{0}, true
+		edges = [][2]int{{0, 1}, {1, 2}}
+		group = []int{0, 2}
+		gaters[0].setDeny(hosts[2].ID())
+		gaters[2].setDeny(hosts[0].ID())
+	} else {
+		for i := 0; i < total; i++ {
+			for j := 0; j < c.N; j++ {
+				trustIdx[i] = append(trustIdx[i], j)
+			}
+			for j := i + 1; j < total; j++ {
+				edges = append(edges, [2]int{i, j})
+			}
+		}
+		for i := 0; i < c.N; i++ {
+			group = append(group, i)
+		}
+	}
+	degree := make([]int, total)
+	for _, e := range edges {
+		degree[e[0]]++
+		degree[e[1]]++
 	}
 	var peers []*vc02NetPeer
 	for i := 0; i < total; i++ {
-		p := newVC02PeerOn(t, hosts[i], psubs[i], dhts[i], 0, 0, 10, nil, false, trusted, name, 400*time.Millisecond)
+		var trusted []peer.ID
+		for _, j := range trustIdx[i] {
+			trusted = append(trusted, hosts[j].ID())
+		}
+		p := newVC02PeerOn(t, hosts[i], psubs[i], dhts[i], 0, 0, 10, nil, trustAll[i], trusted, name, 400*time.Millisecond)
 		peers = append(peers, &vc02NetPeer{p: p, h: hosts[i], g: gaters[i]})
 	}
 	defer func() {
@@ -171,20 +235,17 @@ func vC02NRun(t *testing.T, c vC02NCase) (obs vC02NObs) {
 		}
 	}()
 	topic := vc02Topic(name)
-	connectAll := func() bool {
-		for i := 0; i < total; i++ {
-			for j := i + 1; j < total; j++ {
-				hosts[i].Connect(ctx, peer.AddrInfo{ID: hosts[j].ID(), Addrs: hosts[j].Addrs()})
-			}
+	dial := func() {
+		for _, e := range edges {
+			hosts[e[0]].Connect(ctx, peer.AddrInfo{ID: hosts[e[1]].ID(), Addrs: hosts[e[1]].Addrs()})
 		}
+	}
+	connectAll := func() bool {
+		dial()
 		return vc02WaitFor(60*time.Second, func() bool {
 			for i := 0; i < total; i++ {
-				if len(psubs[i].ListPeers(topic)) < total-1 {
-					for j := 0; j < total; j++ {
-						if j != i {
-							hosts[i].Connect(ctx, peer.AddrInfo{ID: hosts[j].ID(), Addrs: hosts[j].Addrs()})
-						}
-					}
+				if len(psubs[i].ListPeers(topic)) < degree[i] {
+					dial()
 					return false
 				}
 			}
@@ -195,6 +256,9 @@ func vC02NRun(t *testing.T, c vC02NCase) (obs vC02NObs) {
 		obs.Err = "pubsub mesh not formed"
 		return
 	}
+	if c.Line {
+		time.Sleep(400 * time.Millisecond) // a few gossipsub heartbeats: the meshes A-B and B-C are grafted (as C07's relay case)
+	}
 	var vals [][]byte
 	for _, s := range c.Steps {
 		if s.T == "op" && s.Pin {
@@ -203,17 +267,21 @@ func vC02NRun(t *testing.T, c vC02NCase) (obs vC02NObs) {
 	}
 	ranks := newVC02Ranks(vals)
 	headsEqual := func() bool {
-		h0 := strings.Join(peers[0].heads(t), ",")
-		for i := 1; i < c.N; i++ {
+		h0 := strings.Join(peers[group[0]].heads(t), ",")
+		for _, i := range group[1:] {
 			if strings.Join(peers[i].heads(t), ",") != h0 {
 				return false
 			}
 		}
 		return true
 	}
-	syncAll := func() bool { // positive expectation: every trusted peer ends with the same heads, twice in a row
+	syncAll := func() bool { // positive expectation: every compared peer ends with the same heads, 25 polls in a row
 		stable := 0
-		return vc02WaitFor(90*time.Second, func() bool {
+		to := vc02SyncTimeout
+		if obs.NoSync { // already failed once in this case: the verdict is settled, do not wait that long again
+			to = 3 * time.Second
+		}
+		return vc02WaitFor(to, func() bool {
 			if headsEqual() {
 				stable++
 			} else {
@@ -225,6 +293,7 @@ func vC02NRun(t *testing.T, c vC02NCase) (obs vC02NObs) {
 	}
 	onlyUntrusted := map[int]bool{}
 	_ = onlyUntrusted
+	writers := map[int]bool{}
 	byTrusted := map[int]bool{}
 	trustedVals := map[int]map[int]bool{} // cid -> value ranks written by trusted peers
 	trustedUnpinned := map[int]bool{}
@@ -235,6 +304,10 @@ func vC02NRun(t *testing.T, c vC02NCase) (obs vC02NObs) {
 		switch s.T {
 		case "op":
 			r := ((s.R % total) + total) % total
+			if c.Line {
+				r = []int{0, 2}[((s.R%2)+2)%2]
+			}
+			writers[r] = true
 			ci := ((s.C % vc02NCids) + vc02NCids) % vc02NCids
 			var err error
 			if s.Pin {
@@ -288,7 +361,7 @@ func vC02NRun(t *testing.T, c vC02NCase) (obs vC02NObs) {
 			}
 		case "sync":
 			if !syncAll() {
-				obs.Err = "peers did not reach the same heads"
+				obs.NoSync = true // not an infrastructure error: the pinsets are compared as they are
 			}
 		}
 	}
@@ -298,8 +371,15 @@ func vC02NRun(t *testing.T, c vC02NCase) (obs vC02NObs) {
 	for i := range peers {
 		atomic.StoreInt32(&gaters[i].blocked, 0)
 	}
-	if !connectAll() || !syncAll() {
-		obs.Err = "peers did not reach the same heads at the end"
+	if !connectAll() {
+		obs.Err = "pubsub mesh not formed at the end"
+		return
+	}
+	if !syncAll() {
+		obs.NoSync = true
+	}
+	if c.Line && hosts[0].Network().Connectedness(hosts[2].ID()) == network.Connected {
+		obs.Err = "A and C got connected in spite of the gater"
 		return
 	}
 	// negative expectation, bounded: nothing of the untrusted peer arrives later
@@ -349,7 +429,7 @@ func vC02NRun(t *testing.T, c vC02NCase) (obs vC02NObs) {
 		}
 		return nil
 	}
-	for i := 0; i < c.N; i++ {
+	for _, i := range group {
 		hs := peers[i].heads(t)
 		obs.Heads = append(obs.Heads, len(hs))
 		for _, hk := range hs {
@@ -397,7 +477,17 @@ func vC02NRun(t *testing.T, c vC02NCase) (obs vC02NObs) {
 		}
 		obs.Deltas = append(obs.Deltas, e)
 	}
-	for i := 0; i < c.N; i++ {
+	for w := range writers {
+		obs.Writers = append(obs.Writers, w)
+	}
+	sort.Ints(obs.Writers)
+	for _, i := range group {
+		obs.Peers = append(obs.Peers, i)
+		if trustAll[i] {
+			obs.Trust = append(obs.Trust, []int{-1})
+		} else {
+			obs.Trust = append(obs.Trust, append([]int{}, trustIdx[i]...))
+		}
 		st, err := peers[i].p.cc.State(ctx)
 		if err != nil {
 			obs.Err = "state: " + err.Error()
@@ -438,15 +528,45 @@ func vC02NTerm(obs vC02NObs) string {
 		dl = append(dl, fmt.Sprintf("mk_delta %d %d %s %s", d.ID, d.Prio, vc02CoqPairs(d.Adds), vc02CoqPairs(d.Rms)))
 	}
 	var fl []string
-	for _, f := range obs.Finals {
-		fl = append(fl, vc02CoqPairs(f))
+	for k, f := range obs.Finals {
+		all, tl := false, []int{}
+		for _, j := range obs.Trust[k] {
+			if j < 0 {
+				all = true
+			} else {
+				tl = append(tl, j)
+			}
+		}
+		fl = append(fl, fmt.Sprintf("mk_npeer %d %s %s %s", obs.Peers[k], cqBool(all), cqListN(tl), vc02CoqPairs(f)))
 	}
-	return fmt.Sprintf("(mk_h3 %s %s %s)", cqList(dl), cqList(fl), cqListN(obs.Leak))
+	return fmt.Sprintf("(mk_h3 %s %s %s %s)", cqList(dl), cqList(fl), cqListN(obs.Writers), cqListN(obs.Leak))
 }
 
 func vC02NGen(r *vRand, i int) vC02NCase {
 	op := func(p, c, v int) vC02NStep { return vC02NStep{T: "op", R: p, Pin: true, C: c, V: v} }
 	un := func(p, c int) vC02NStep { return vC02NStep{T: "op", R: p, C: c} }
+	if i%3 == 1 { // the line A -- B -- C: A and C trust each other only and are connected only through B
+		c := vC02NCase{N: 3, Line: true}
+		hot := r.intn(vc02NCids)
+		rnd := func(n int) {
+			for k := 0; k < n; k++ {
+				ci := r.intn(vc02NCids)
+				if r.chance(50) {
+					ci = hot
+				}
+				if r.chance(70) {
+					c.Steps = append(c.Steps, op(r.intn(2), ci, r.intn(vc02NVariants)))
+				} else {
+					c.Steps = append(c.Steps, un(r.intn(2), ci))
+				}
+			}
+		}
+		c.Steps = append(c.Steps, op(1, hot, r.intn(vc02NVariants))) // C writes first: it must reach A through B
+		rnd(r.rng(1, 3))
+		c.Steps = append(c.Steps, vC02NStep{T: "sync"})
+		rnd(r.rng(1, 3))
+		return c
+	}
 	if i%3 == 2 { // a peer nobody trusts
 		c := vC02NCase{N: 2, Untrusted: true}
 		c.Steps = []vC02NStep{op(0, 0, r.intn(vc02NVariants)), {T: "sync"}, op(2, 1, r.intn(vc02NVariants)), op(2, 0, r.intn(vc02NVariants)),
@@ -498,13 +618,37 @@ func TestVerifC02Net(t *testing.T) {
 			cases = append(cases, vC02NGen(r, i))
 		}
 	}
+	// generated cases run one after the other; the candidates of a shrink round (several given inputs) run side by side:
+	// every case has its own hosts and its own topic
+	results := make([]vC02NObs, len(cases))
+	par := 1
+	if vCasesIn() != nil && len(cases) > 1 {
+		par = 6
+	}
+	var wg sync.WaitGroup
+	sem := make(chan struct{}, par)
+	for i := range cases {
+		wg.Add(1)
+		sem <- struct{}{}
+		go func(i int) {
+			defer wg.Done()
+			defer func() { <-sem }()
+			results[i] = vC02NRun(t, cases[i])
+		}(i)
+	}
+	wg.Wait()
 	for i, c := range cases {
-		obs := vC02NRun(t, c)
+		obs := results[i]
 		if obs.Err != "" {
 			b, _ := json.Marshal(c)
 			t.Fatalf("case %d: %s (input %s)", i, obs.Err, b)
 		}
-		if c.Untrusted {
+		if obs.NoSync {
+			out.count("nosync")
+		}
+		if c.Line {
+			out.count("line_relay")
+		} else if c.Untrusted {
 			out.count("untrusted")
 		} else {
 			out.count(fmt.Sprintf("partition_%d_peers", len(obs.Finals)))
